@@ -26,21 +26,21 @@ def fresh (cfg : Nat → List Nat × Bool × Bool) : Nat → Src := fun i => Src
 
 /-- Every state reachable from fresh sources, by any history, any handler behaviour, after any number of steps,
 satisfies the machine invariant. -/
-theorem reachable_inv (β : Beh) (cfg : Nat → List Nat × Bool × Bool) (ops : List SAct) (n : Nat) :
-    MInv (run β n (M.init (fresh cfg) ops)) :=
-  (MInv.init (fresh cfg) (fun i => SrcInv.init (cfg i).1 (cfg i).2.1 (cfg i).2.2) (fun _ _ => rfl) ops).run n
+theorem reachable_inv (β : Beh) (v : Variant) (cfg : Nat → List Nat × Bool × Bool) (ops : List SAct) (n : Nat) :
+    MInv (run β n (M.init v (fresh cfg) ops)) :=
+  (MInv.init v (fresh cfg) (fun i => SrcInv.init (cfg i).1 (cfg i).2.1 (cfg i).2.2) (fun _ _ => rfl) ops).run n
 
 /-- **sorted_inv.** After any operation sequence — at every intermediate step, also in the middle of re-entrant
 deliveries, on every source — every handler list is sorted by priority descending, ties by subscription order (`eid`
 ascending), holds no subscription id twice, and so is the snapshot every in-flight delivery iterates. -/
-theorem sorted_inv (β : Beh) (cfg : Nat → List Nat × Bool × Bool) (ops : List SAct) (n : Nat) :
-    let m := run β n (M.init (fresh cfg) ops)
+theorem sorted_inv (β : Beh) (v : Variant) (cfg : Nat → List Nat × Bool × Bool) (ops : List SAct) (n : Nat) :
+    let m := run β n (M.init v (fresh cfg) ops)
     (∀ i et l, (m.srcs i).handlers et = some l →
         l.Pairwise (fun a b => b.prio < a.prio ∨ (a.prio = b.prio ∧ a.eid < b.eid)) ∧
         l.Pairwise (fun a b => a.eid ≠ b.eid)) ∧
     (∀ fr ∈ m.stack, fr.snap.Pairwise (fun a b => b.prio < a.prio ∨ (a.prio = b.prio ∧ a.eid < b.eid))) := by
   intro m
-  have hi := reachable_inv β cfg ops n
+  have hi := reachable_inv β v cfg ops n
   exact ⟨fun i et l h => ⟨(hi.src i).sorted et l h, (hi.src i).uniq et l h⟩, fun fr hfr => (hi.snaps fr hfr).1⟩
 
 /-- **delivery_exact.** Take any reachable moment `m` at which the next step starts a delivery (the stack becomes one
@@ -168,26 +168,36 @@ theorem sources_independent (srcs : Nat → Src) (i j : Nat) (hne : j ≠ i) (a 
 
 /-- **noerrors (proved part).** In every run, a `raiseEventNoErrors` delivery never ends in an exception other than
 `ReventError`: every other handler exception, raised at any depth below it, is swallowed and the call returns `None`. -/
-theorem noerrors_partial (β : Beh) (cfg : Nat → List Nat × Bool × Bool) (ops : List SAct) (n : Nat) (f : Nat) (k : Exc) :
-    Ev.endf f true (.exc k) ∈ (run β n (M.init (fresh cfg) ops)).log → k = .revent := by
+theorem noerrors_partial (β : Beh) (v : Variant) (cfg : Nat → List Nat × Bool × Bool) (ops : List SAct) (n : Nat) (f : Nat) (k : Exc) :
+    Ev.endf f true (.exc k) ∈ (run β n (M.init v (fresh cfg) ops)).log → k = .revent := by
   intro h
-  have hg : GoodLog (M.init (fresh cfg) ops).log := by intro ev hev; simp [M.init] at hev
+  have hg : GoodLog (M.init v (fresh cfg) ops).log := by intro ev hev; simp [M.init] at hev
   exact hg.run (β := β) n _ h
 
 /-- The full statement of the property: a `raiseEventNoErrors` call that reached the dispatch loop never ends in an
 exception at all (a `ReventError` of the raiser's own type check happens before the loop and logs no `endf`).
-FALSE of the code as it stands (finding D24): `raiseEventNoErrors` re-raises every `ReventError`, also one that came
-out of a handler. -/
-def noerrors_full (β : Beh) (cfg : Nat → List Nat × Bool × Bool) (ops : List SAct) (n : Nat) : Prop :=
-  ∀ f k, Ev.endf f true (.exc k) ∉ (run β n (M.init (fresh cfg) ops)).log
+FALSE of the code as it stands (finding D24: `raiseEventNoErrors` re-raises every `ReventError`, also one that came out
+of a handler) — `noerrors_defect`; TRUE of the code with fixes/C05_D24 applied — `noerrors_fixed`. -/
+def noerrors_full (β : Beh) (v : Variant) (cfg : Nat → List Nat × Bool × Bool) (ops : List SAct) (n : Nat) : Prop :=
+  ∀ f k, Ev.endf f true (.exc k) ∉ (run β n (M.init v (fresh cfg) ops)).log
 
 /-- D24 witness: the only handler subscribes to an undeclared event type (not catching the `ReventError`). -/
 def d24β : Beh := fun hid _ => if hid = 1 then ⟨none, [(⟨0, .add 2 2 0 false none⟩, false)], .none⟩ else ⟨none, [], .none⟩
 def d24ops : List SAct := [⟨0, .add 0 1 0 false none⟩, ⟨0, .raise 0 .inst true⟩]
 def cfg01 : Nat → List Nat × Bool × Bool := fun _ => ([0, 1], false, false)
 
-theorem noerrors_defect : ¬ noerrors_full d24β cfg01 d24ops 8 :=
+theorem noerrors_defect : ¬ noerrors_full d24β Variant.asIs cfg01 d24ops 8 :=
   fun h => h 0 .revent (by decide)
+
+/-- **noerrors (repaired variant).** With fixes/C05_D24 the full statement holds for every history and behaviour. -/
+theorem noerrors_fixed (β : Beh) (v : Variant) (hv : v.noErrAll = true) (cfg : Nat → List Nat × Bool × Bool)
+    (ops : List SAct) (n : Nat) : noerrors_full β v cfg ops n := by
+  intro f k h
+  have hg : StrictLog (M.init v (fresh cfg) ops).log := by intro ev hev; simp [M.init] at hev
+  exact hg.run (β := β) (m := M.init v (fresh cfg) ops) hv n _ h
+
+/-- the D24 witness history on the repaired variant: the exception is swallowed, the call returns `None` -/
+example : Ev.endf 0 true (.ok .none) ∈ (run d24β 8 (M.init ⟨true, false⟩ (fresh cfg01) d24ops)).log := by decide
 
 /-- **undeclared_rejected.** "Declared" is exact identity of the event type (`isDeclared`: accept-all, or membership in
 the declared list — a type that the harness realises as a subclass of a declared class is just another number).  On a
@@ -257,9 +267,9 @@ theorem lazy_init :
 /-- What the statement says of one-shot handlers also when they raise: once a one-shot handler has been invoked and
 has *raised*, no delivery that begins afterwards has it in its snapshot.
 FALSE of the code as it stands (finding D60): `if once: self.removeListener(eid)` comes after the call (revent.py:295-298),
-so an exception skips it. -/
-def once_strict (β : Beh) (cfg : Nat → List Nat × Bool × Bool) (ops : List SAct) (n : Nat) : Prop :=
-  ∀ l1 l2 f e k h, (run β n (M.init (fresh cfg) ops)).log = l1 ++ Ev.ret f e (.exc k) h :: l2 →
+so an exception skips it — `once_raises_defect`.  With fixes/C05_D60 (removal in a `finally`): `once_removed_raising`. -/
+def once_strict (β : Beh) (v : Variant) (cfg : Nat → List Nat × Bool × Bool) (ops : List SAct) (n : Nat) : Prop :=
+  ∀ l1 l2 f e k h, (run β n (M.init v (fresh cfg) ops)).log = l1 ++ Ev.ret f e (.exc k) h :: l2 →
     e.once = true → ∀ f' s et snap, Ev.begin f' s et snap ∈ l2 → e ∉ snap
 
 /-- D60 witness: a one-shot handler raises on its first invocation (under `raiseEventNoErrors`); the next raise invokes it again. -/
@@ -267,13 +277,57 @@ def d60β : Beh := fun hid log => if hid = 1 ∧ log.length < 3 then ⟨none, []
 def d60ops : List SAct := [⟨0, .add 0 1 0 true none⟩, ⟨0, .raise 0 .inst true⟩, ⟨0, .raise 0 .inst false⟩]
 def d60e : Entry := ⟨0, 1, true, 1, none⟩
 
-theorem once_raises_defect : ¬ once_strict d60β cfg01 d60ops 12 := by
+theorem once_raises_defect : ¬ once_strict d60β Variant.asIs cfg01 d60ops 12 := by
   intro h
   have := h [.res (.ok (.pair 0 1)), .begin 0 0 0 [d60e], .call 0 0 d60e]
     [.endf 0 true (.ok .none), .res (.ok .none), .begin 1 0 0 [d60e], .call 1 0 d60e, .ret 1 d60e .none false,
      .endf 1 false (.ok (.event false)), .res (.ok (.event false))]
     0 d60e .other false (by decide) rfl 1 0 0 [d60e] (by decide)
   exact this (by decide)
+
+/-- **once_removed (repaired variant, raising handlers).** With fixes/C05_D60: take any reachable moment at which the
+running handler of a one-shot subscription `e` raises — either it raises itself (`fr.cur = (e, [], exc k)`) or an
+exception of one of its actions, which it does not catch, is about to reach it (`pend = (exc k, uncaught)`).  From then
+on, for ever, `e` is in no handler list of its source, in the snapshot of no delivery on it that starts later, and
+invoked by no such delivery. -/
+theorem once_removed_raising (β : Beh) (m : M) (hi : MInv m) (hv : m.v.onceFinally = true) (fr : Frame) (st : List Frame)
+    (e : Entry) (acts : List (SAct × Bool)) (r : Ret) (k : Exc) (hs : m.stack = fr :: st) (hc : fr.cur = some (e, acts, r))
+    (ho : e.once = true)
+    (hraise : (m.pend = none ∧ acts = [] ∧ r = .exc k) ∨ m.pend = some (.exc k, false)) (n : Nat) :
+    let m' := run β n (step β m)
+    (∀ et l, (m'.srcs fr.src).handlers et = some l → ∀ y ∈ l, y.eid ≠ e.eid) ∧
+    (∀ x ∈ m'.stack, x.src = fr.src → m.nextFid ≤ x.fid → ∀ y ∈ x.snap, y.eid ≠ e.eid) ∧
+    (∀ f, m.nextFid ≤ f → ∀ y, Ev.call f fr.src y ∈ m'.log → y.eid ≠ e.eid) := by
+  intro m'
+  have hfr : fr ∈ m.stack := by rw [hs]; exact List.mem_cons_self
+  have hok := hi.wf.ok fr hfr
+  have hmem : e ∈ fr.snap := by rw [← hok.calls, hok.rets]; simp [curEntry, hc]
+  have hle : e.eid ≤ (m.srcs fr.src).nextEid := (hi.snaps fr hfr).2.2 e hmem
+  have hlt : ∀ x ∈ st, x.fid < m.nextFid := fun x hx => hi.wf.lt x (by rw [hs]; exact List.mem_cons_of_mem _ hx)
+  have hnocall : ∀ f, m.nextFid ≤ f → ∀ y, Ev.call f fr.src y ∈ m.log → False := by
+    intro f hf y hy
+    have := mem_callsOf hy
+    rw [(hi.wf.fresh f hf).1] at this; cases this
+  have hl0 : Later e.eid fr.src m.nextFid (step β m) := by
+    rcases hraise with ⟨hp, rfl, rfl⟩ | hp
+    · have : step β m = abort m fr st k := by unfold step; simp [hp, hs, hc]
+      rw [this]; exact later_of_abort hv hc ho hle hlt hnocall
+    · have : step β m = abort { m with pend := none, log := m.log ++ [.res (.exc k)] } fr st k := by
+        unfold step; simp [hp, hs]
+      rw [this]
+      exact later_of_abort (m := { m with pend := none, log := m.log ++ [.res (.exc k)] }) hv hc ho hle hlt
+        (by intro f hf y hy; simp at hy; exact hnocall f hf y hy)
+  have hl := Later.run (β := β) hi.step' hl0 n
+  exact ⟨hl.absent.2, hl.frames, hl.calls⟩
+
+/-- non-vacuity of `once_removed_raising`: step 4 of the D60 witness history on the repaired variant -/
+example : let m := run d60β 4 (M.init ⟨false, true⟩ (fresh cfg01) d60ops)
+    m.v.onceFinally = true ∧ m.pend = none ∧ (m.stack.map (·.cur)) = [some (d60e, [], .exc .other)] := by decide
+
+/-- the D60 witness history on the repaired variant: after the first raise the one-shot handler is gone, the second
+    raise invokes nobody -/
+example : ((run d60β 12 (M.init ⟨false, true⟩ (fresh cfg01) d60ops)).srcs 0).subscribers 0 = [] ∧
+    callsOf 1 (run d60β 12 (M.init ⟨false, true⟩ (fresh cfg01) d60ops)).log = [] := by decide
 
 /-! ## Non-vacuity: the hypotheses above are met by concrete, non-trivial states
 
@@ -293,7 +347,7 @@ def wβ : Beh := fun hid log =>
 def wops : List SAct := [⟨0, .add 0 1 0 false none⟩, ⟨0, .add 0 2 0 true none⟩, ⟨0, .add 0 3 5 false none⟩,
   ⟨1, .add 0 5 0 false none⟩, ⟨1, .add 0 6 0 false none⟩, ⟨1, .add 0 7 0 false none⟩, ⟨0, .raise 0 .inst false⟩]
 def wcfg : Nat → List Nat × Bool × Bool := fun i => if i = 1 then ([0], false, true) else ([0, 1], false, false)
-def w (n : Nat) : M := run wβ n (M.init (fresh wcfg) wops)
+def w (n : Nat) : M := run wβ n (M.init Variant.asIs (fresh wcfg) wops)
 def eA : Entry := ⟨0, 1, false, 1, none⟩
 def eB : Entry := ⟨0, 2, true, 2, none⟩
 def eC : Entry := ⟨5, 3, false, 3, none⟩
@@ -303,7 +357,7 @@ def eF : Entry := ⟨0, 6, false, 5, none⟩
 def eG : Entry := ⟨0, 7, false, 6, none⟩
 
 /-- the state after 12 steps is reachable (so `MInv` holds) and its next step starts delivery 0 on source 0 over [C, A, B] -/
-example : MInv (w 12) := reachable_inv _ _ _ _
+example : MInv (w 12) := reachable_inv _ _ _ _ _
 example : (step wβ (w 12)).stack = ⟨0, 0, 0, false, true, [eC, eA, eB], [eC, eA, eB], false, none⟩ :: (step wβ (w 12)).stack.tail ∧
     (step wβ (w 12)).stack.tail.length = (w 12).stack.length ∧ ((w 12).srcs 0).subscribers 0 = [eC, eA, eB] := by decide
 /-- step 20: A is running inside delivery 0 (`reentrant_safe`: a frame is on the stack) and its next action starts the
